@@ -455,3 +455,41 @@ def witness_path(
         out.append(cur)
         cur = wit.get(cur)
     return list(reversed(out))
+
+
+def guards(cfg: CFG, n: int, dom: Optional[Dict[int, Set[int]]] = None) -> List[Tuple[Node, Optional[bool]]]:
+    """Tests (and match cases / loop headers) that dominate node n, each with the polarity under which
+    n is reachable: True (only via the true edge), False (only via the false edge), None (both)."""
+    dom = dom or cfg.dominators()
+    out: List[Tuple[Node, Optional[bool]]] = []
+    for d in sorted(dom[n]):
+        nd = cfg.nodes[d]
+        if nd.kind not in ("test", "case") or d == n:
+            continue
+        via = {}
+        for lab in ("true", "false"):
+            starts = [m for m, l in cfg.succ[d] if l == lab]
+            reach = False
+            seen: Set[int] = set()
+            todo = list(starts)
+            while todo:
+                x = todo.pop()
+                if x in seen:
+                    continue
+                seen.add(x)
+                if x == n:
+                    reach = True
+                    break
+                if x == d:
+                    continue  # do not pass through the test again (loops)
+                todo.extend(m for m, _ in cfg.succ[x])
+            via[lab] = reach
+        pol: Optional[bool]
+        if via["true"] and not via["false"]:
+            pol = True
+        elif via["false"] and not via["true"]:
+            pol = False
+        else:
+            pol = None
+        out.append((nd, pol))
+    return out
